@@ -231,6 +231,7 @@ class EattBearer:
         self.ident = 0x20
         self.dead = False
         self.server_writes: list[bytes] = []   # ATT PDUs the server handed to the channel, not yet seen
+        self._off = 0                           # bytes of server_writes[0] already seen in earlier SDUs
 
     def next_ident(self):
         self.ident = self.ident % 255 + 1
@@ -284,41 +285,47 @@ class EattBearer:
     def deliver(self, sdu: bytes):
         """One SDU = one ATT PDU (Part G 5.3.2 / Part A 3.4: SDU boundaries are message
         boundaries). The tap on the server channel's write() is only used to *name* what went
-        wrong when an SDU is not one PDU the server wrote: several PDUs merged into one SDU, or
-        one PDU split over several SDUs because it exceeds the L2CAP MTU."""
+        wrong when an SDU is not exactly one PDU the server wrote: the channel treated the PDUs
+        as a byte stream (several PDUs, or pieces of them, in one SDU), or one PDU larger than the
+        L2CAP MTU was split over several SDUs. The pairing automaton is then fed with the PDUs as
+        the server wrote them, so that the merge is reported once under its own key."""
         r = self.hs.r
         w = self.server_writes
-        if w and sdu == w[0]:
+        if w and self._off == 0 and sdu == w[0]:
             w.pop(0)
-        elif w and len(w) >= 2 and sdu.startswith(w[0]):
-            acc, k = b'', 0
-            while k < len(w) and len(acc) < len(sdu):
-                acc += w[k]
-                k += 1
-            if acc == sdu:
-                r.bad('eatt/pdus-merged-into-one-sdu',
-                      f'{k} ATT PDUs ({[p[:6].hex() for p in w[:k]]}) arrived as one SDU of {len(sdu)} bytes on an '
-                      f'enhanced bearer; server had no credits when it wrote them; {self.hs.ctx}')
-                parts = w[:k]
-                del w[:k]
-                for p in parts:      # judge the pairing as if boundaries had been kept
-                    self.rx.append(p)
-                    self.pairing.server(p, r, self.hs.ctx)
-                return
-        elif w and len(sdu) < len(w[0]) and w[0].startswith(sdu):
-            # first piece of a PDU larger than my L2CAP MTU: report the whole PDU once
-            whole = w[0]
-            self._split_left = len(whole) - len(sdu)
-            self.rx.append(whole)
-            self.pairing.server(whole, r, self.hs.ctx + ' (PDU split over several SDUs)')
+            self.rx.append(sdu)
+            self.pairing.server(sdu, r, self.hs.ctx)
             return
-        elif w and getattr(self, '_split_left', 0) > 0:
-            self._split_left -= len(sdu)
-            if self._split_left <= 0:
-                w.pop(0)
+        data = sdu
+        touched = []
+        completed = []
+        while data and w:
+            rest = w[0][self._off:]
+            n = min(len(rest), len(data))
+            if data[:n] != rest[:n]:
+                break
+            touched.append(w[0])
+            data = data[n:]
+            if n == len(rest):
+                completed.append(w.pop(0))
+                self._off = 0
+            else:
+                self._off += n
+        if data or not touched:
+            # not explainable from what the server wrote: judge the SDU as it is
+            self.server_writes.clear()
+            self._off = 0
+            self.rx.append(sdu)
+            self.pairing.server(sdu, r, self.hs.ctx)
             return
-        self.rx.append(sdu)
-        self.pairing.server(sdu, r, self.hs.ctx)
+        r.ev('oracle_evals')
+        if len(touched) >= 2:
+            r.bad('eatt/pdus-merged-into-one-sdu',
+                  f'one SDU of {len(sdu)} bytes on an enhanced bearer carries (pieces of) {len(touched)} ATT PDUs '
+                  f'({[p[:6].hex() for p in touched[:6]]}); the server had no credits when it wrote them; {self.hs.ctx}')
+        for p in completed:
+            self.rx.append(p)
+            self.pairing.server(p, r, self.hs.ctx + (' (PDU spread over several SDUs)' if len(p) > len(sdu) else ''))
 
 
 class Harness:
